@@ -325,6 +325,14 @@ func evaluate(res *vio.Result, c *cfgkit.Case, o *outcome, smoke bool) {
 		j.effective(r)
 	}
 
+	// the -fmtConf round trip (outside the property's statement: reported as a note)
+	if r.Migrate != "" {
+		res.Count("migrations", 1)
+		if r.Migrate != "same" {
+			j.drift("config.migrate/changed", "Config.Migrate changed the meaning of the configuration: "+r.Migrate, "same", r.Migrate)
+		}
+	}
+
 	// ---- traffic ----
 	if !smoke {
 		return
@@ -418,6 +426,9 @@ func (j *judge) effective(r *cfgkit.Result) {
 			continue
 		}
 		for k := range want.TCP {
+			if got.TCP[k].Ipw == cfgkit.Unread {
+				continue
+			}
 			diff("initial-payload-wait-timeout", mode(tl[k].Ipw), want.TCP[k].Ipw, got.TCP[k].Ipw)
 			diff("initial-payload-wait-buffer-size", mode(tl[k].Ipb), want.TCP[k].Ipb, got.TCP[k].Ipb)
 			if !cfgkit.Is2022(s.Proto) && (s.Proto == "socks5" || s.Proto == "http" || s.Proto == "direct") {
@@ -425,6 +436,9 @@ func (j *judge) effective(r *cfgkit.Result) {
 			}
 		}
 		for k := range want.UDP {
+			if got.UDP[k].Nat == cfgkit.Unread {
+				continue
+			}
 			diff("nat-timeout", mode(ul[k].Nat), want.UDP[k].Nat, got.UDP[k].Nat)
 			diff("relay-batch-size", mode(ul[k].Rb), want.UDP[k].Rb, got.UDP[k].Rb)
 			diff("server-recv-batch-size", mode(ul[k].Sb), want.UDP[k].Sb, got.UDP[k].Sb)
@@ -437,10 +451,10 @@ func (j *judge) effective(r *cfgkit.Result) {
 		if want.Pad != "" && got.Pad != "" {
 			diff("padding-policy", mode(s.Pad), want.Pad, got.Pad)
 		}
-		if want.Swf != 0 && got.Swf != 0 {
+		if want.Swf != 0 && got.Swf != cfgkit.Unread {
 			diff("sliding-window-filter-size", mode(s.Swf), want.Swf, got.Swf)
 		}
-		if want.MTU != 0 && got.MTU != 0 {
+		if want.MTU != 0 && got.MTU != cfgkit.Unread {
 			diff("mtu", mode(s.MTU), want.MTU, got.MTU)
 		}
 	}
@@ -479,6 +493,7 @@ func TestCases(t *testing.T) {
 		t.Skip(err)
 	}
 	res := vio.NewResult()
+	res.Samples = []any{}
 	defer func() {
 		if err := res.Write(); err != nil {
 			t.Fatal(err)
